@@ -57,7 +57,7 @@ Fixpoint nodupb (l : list ident) : bool :=
 Definition fn_ok (gn : list ident) (d : fn) : bool :=
   let ps := map fst (fparams d) in
   nodupb ps && forallb (fun x => negb (mem x gn)) ps &&
-  (match chk gn ps (fbody d) with Some _ => true | None => false end) && stmt_plain (fbody d).
+  (match chk gn (rev ps) (fbody d) with Some _ => true | None => false end) && stmt_plain (fbody d).   (* last parameter = newest binding *)
 
 Definition shadow_ok (gn : list ident) (sh : shadow) : bool :=
   (match chk gn [] (sh_body sh) with Some _ => true | None => false end) && stmt_plain (sh_body sh).
